@@ -42,6 +42,13 @@ def gen_cases(tier, seed):
         # the shared default Params() has no iteration limit: only use it on families that converge
         case["default_params"] = bool(rng.random() < 0.25) and fam in ("QP", "NLP", "DEG")
         case["hist_len"] = int(rng.integers(3, 9))
+        # what the user's callbacks hand out: fresh objects, cached / memoised ones, or fresh values on one shared
+        # sparsity structure -- a problem object with such state may be solved several times
+        case["policy"] = str(rng.choice(["fresh", "fresh", "const", "memo", "shared"]))
+        if case["policy"] == "shared" and fam in ("QP", "NLP") and rng.random() < 0.6:
+            cfgd["scaling"] = "none"
+            case["gopts"] = {"row_force": ["eq"] * 12}
+            case["fmt"] = "csc"
         cases.append(case)
     return cases
 
@@ -142,7 +149,9 @@ def run_case(case):
     kept = (p0, first.solver)
     for pos in range(case["hist_len"]):
         kind = str(rng.choice(["resolve_same_object", "fresh_after_other", "fresh_after_other", "fresh_immediately",
-                               "after_raise", "params_object_reused"]))
+                               "after_raise", "params_object_reused", "same_problem_object"]))
+        if kind == "same_problem_object" and case.get("default_params"):
+            kind = "fresh_immediately"
         if kind == "params_object_reused" and case.get("default_params"):
             kind = "fresh_immediately"
         if kind == "params_object_reused":
@@ -169,6 +178,21 @@ def run_case(case):
             p2 = work.prepare(dict(case), record_sites=False, keep_args=False)
             out = mon.run_solve(p2.rec, pt.params, p2.x0, p2.y0)
             p = p2
+            evals += 1
+        elif kind == "same_problem_object":
+            # the problem object of an earlier execution (with whatever its callbacks cache or share) is first solved
+            # under another algorithmic configuration, then the target is solved on a fresh solver for the same object
+            pk = kept[0]
+            oc = dict(case["cfg"], step_solver=str(rng.choice(C.STEP_SOLVER)), newton=str(rng.choice(["Simplified", "Full"])),
+                      linear="LU", iteration_limit=5)
+            try:
+                mon.run_solve(pk.rec, C.make_params(oc, pk.spec, weights=pk.weights), pk.x0, pk.y0)
+            except BaseException as ex:
+                if type(ex).__name__ == "CaseTimeout":
+                    raise
+            pt = work.prepare(dict(case), record_sites=False, keep_args=False)
+            out = mon.run_solve(pk.rec, pt.params, pt.x0, pt.y0)
+            p = pk
             evals += 1
         elif kind == "resolve_same_object":
             if rng.random() < 0.5:
@@ -246,10 +270,11 @@ def finalize(agg, tier):
                 "weight on filter penalties; 20% through the shared default Params object), each re-executed at 3-8 history "
                 "positions: same solver object again, fresh solver immediately, fresh solver after 1-2 unrelated solves "
                 "(other families, parameters, report_rcond, deliberate errors), fresh solver right after a solve that "
-                "raised; each worker process additionally carries the history of all earlier cases of its shard; a position "
+                "raised, fresh solver for the problem object of an earlier execution (callbacks returning fresh / cached / memoised objects or fresh values on a shared sparsity structure) after that object was solved under another configuration; each worker process additionally carries the history of all earlier cases of its shard; a position "
                 "is non-trivial when it could be compared step by step and was identical; positions are distinct by "
                 "construction",
         "floors": {"histories": 100, "position_resolve_same_object": 100, "position_fresh_after_other": 150,
-                   "position_after_raise": 80, "default_params_runs": 5, "position_params_object_reused": 60},
+                   "position_after_raise": 80, "default_params_runs": 5, "position_params_object_reused": 60,
+                   "position_same_problem_object": 60},
         "assumptions": ["bit-identical comparison of every trial record, status, counters, x, y, d, dist_factor"],
     }
